@@ -30,12 +30,12 @@ static vp::Result R;
 
 // ---- operations ---------------------------------------------------------------------------------
 struct Op {
-  char k;     // 'S' store, 'T' clock + 1 s, 'Q' query
+  char k;     // 'S' store, 'T' clock + 1 s, 'Q' query, 'U' a request for the referenced message is built and sent but nobody answers
   int msg;    // S: referenced message
   int vec;    // S: value vector
   string str() const {
     char b[16];
-    if (k == 'S') snprintf(b, sizeof(b), "S%d:%d", msg, vec); else snprintf(b, sizeof(b), "%c", k);
+    if (k == 'S') snprintf(b, sizeof(b), "S%d:%d", msg, vec); else if (k == 'U') snprintf(b, sizeof(b), "U%d", msg); else snprintf(b, sizeof(b), "%c", k);
     return b;
   }
 };
@@ -59,6 +59,10 @@ static bool parseOps(const string& s, vector<Op>* out) {
       o.msg = t[1] - '0';
       o.vec = t[3] - '0';
       if (o.msg < 0 || o.msg > 3 || o.vec < 0 || o.vec > 9) return false;
+    } else if (o.k == 'U') {
+      if (t.size() != 2) return false;
+      o.msg = t[1] - '0';
+      if (o.msg < 0 || o.msg > 3) return false;
     } else if ((o.k != 'T' && o.k != 'Q') || t.size() != 1) {
       return false;
     }
@@ -392,6 +396,13 @@ static bool runHistory(const Config& c, const Judged& j, World* w, const vector<
         *log += b;
         if (st.mismatchChange) *log += "      " + st.changeDetail + "   <-- MISMATCH\n";
       }
+    } else if (o.k == 'U') {
+      if (static_cast<size_t>(o.msg) >= c.msgs.size()) return false;
+      Message* watched = w->ref[static_cast<size_t>(o.msg)];
+      ebusd::MasterSymbolString ms;
+      std::istringstream noInput("");
+      ebusd::result_t pr = watched ? watched->prepareMaster(0, 0x31, ebusd::SYN, ';', &noInput, &ms) : ebusd::RESULT_ERR_NOTFOUND;
+      if (log) { snprintf(b, sizeof(b), "%-5s t=+%lds request for %s built (%s %s), no answer arrives\n", o.str().c_str(), static_cast<long>(g_now - T0), c.msgs[static_cast<size_t>(o.msg)].name.c_str(), ebusd::getResultCode(pr), ms.getStr().c_str()); *log += b; }
     } else if (o.k == 'T') {
       g_now++;
       if (log) { snprintf(b, sizeof(b), "T     clock advances to t=+%lds\n", static_cast<long>(g_now - T0)); *log += b; }
@@ -459,6 +470,9 @@ static void explore(const Config& c, int depth, bool crossCheck) {
   R.count("configurations_explored");
   vector<Op> alphabet;
   for (size_t m = 0; m < c.msgs.size(); m++) for (size_t v = 0; v < c.values[m].size(); v++) alphabet.push_back({'S', static_cast<int>(m), static_cast<int>(v)});
+  // an unanswered poll / read of a referenced active read message whose request carries no data (nothing was received:
+  // the reference state does not change, in particular a condition without values has still not "seen" the message)
+  for (size_t m = 0; m < c.msgs.size(); m++) if (!c.msgs[m].scan() && c.msgs[m].part == 's' && !c.msgs[m].noDst) alphabet.push_back({'U', static_cast<int>(m), 0});
   alphabet.push_back({'T', 0, 0});
   alphabet.push_back({'Q', 0, 0});
   struct Node { vector<Op> h; string canon; };
